@@ -676,6 +676,8 @@ impl IdlSqliteTransaction for IdlSqliteWriteTransaction {
     }
 
     fn get_conn(&self) -> Result<&Connection, OperationError> {
+        #[cfg(feature = "verif-hooks")]
+        crate::verif_hooks::storage_point("stmt")?;
         self.conn
             .as_ref()
             .ok_or(OperationError::TransactionAlreadyCommitted)
@@ -726,12 +728,16 @@ impl IdlSqliteWriteTransaction {
         std::mem::swap(&mut dropping, &mut self.conn);
 
         if let Some(conn) = dropping {
+            #[cfg(feature = "verif-hooks")]
+            crate::verif_hooks::storage_point("commit")?;
             conn.execute("COMMIT TRANSACTION", [])
                 .map(|_| ())
                 .map_err(|e| {
                     admin_error!(?e, "CRITICAL: failed to commit sqlite txn");
                     OperationError::BackendEngine
                 })?;
+            #[cfg(feature = "verif-hooks")]
+            let _ = crate::verif_hooks::storage_point("committed");
 
             self.pool
                 .lock()
